@@ -191,6 +191,51 @@ static std::string op_str(const OpD &d)
 	}
 }
 
+// ------------------------------------------------------------------ all states of a pool (snapshot jobs)
+// A state up to renaming of equally named slots is a set of root lists; a list is a sequence of trees;
+// a tree is a name plus a sequence of trees.  Everything over a given multiset of names is generated,
+// written in the same text form as sym_canon() and sorted: the index in that table is the init code.
+struct MS { int c[3]; bool operator<(const MS &o) const { return std::lexicographical_compare(c, c + 3, o.c, o.c + 3); } bool zero() const { return !c[0] && !c[1] && !c[2]; } };
+static const std::vector<std::string> &gen_seq(const MS &m)
+{
+	static std::map<MS, std::vector<std::string> > memo;
+	auto it = memo.find(m);
+	if (it != memo.end()) return it->second;
+	std::vector<std::string> out;
+	if (m.zero()) out.push_back("");
+	else for (int x = 0; x < 3; ++x) if (m.c[x]) {
+		MS rest = m; --rest.c[x];
+		for (int k0 = 0; k0 <= rest.c[0]; ++k0) for (int k1 = 0; k1 <= rest.c[1]; ++k1) for (int k2 = 0; k2 <= rest.c[2]; ++k2) {
+			MS K = { { k0, k1, k2 } }, R = { { rest.c[0] - k0, rest.c[1] - k1, rest.c[2] - k2 } };
+			const std::vector<std::string> ks = gen_seq(K), rs = gen_seq(R);
+			for (auto &a : ks) for (auto &b : rs) out.push_back(std::string(1, NAMECH[x]) + (a.empty() ? std::string() : "(" + a + ")") + b);
+		}
+	}
+	return memo[m] = out;
+}
+static void gen_lists(const MS &m, std::vector<std::string> &lists, std::set<std::string> &out)
+{
+	if (m.zero()) { std::vector<std::string> l(lists); std::sort(l.begin(), l.end()); std::string s; for (auto &x : l) s += x; out.insert(s); return; }
+	for (int k0 = 0; k0 <= m.c[0]; ++k0) for (int k1 = 0; k1 <= m.c[1]; ++k1) for (int k2 = 0; k2 <= m.c[2]; ++k2) {
+		if (!k0 && !k1 && !k2) continue;
+		MS K = { { k0, k1, k2 } }, R = { { m.c[0] - k0, m.c[1] - k1, m.c[2] - k2 } };
+		for (auto &q : gen_seq(K)) { lists.push_back("[" + q + "]"); gen_lists(R, lists, out); lists.pop_back(); }
+	}
+}
+static std::vector<std::string> g_table;
+static void build_table()
+{
+	g_table.clear();
+	MS all = { { 0, 0, 0 } }; for (int i = 0; i < g_N; ++i) ++all.c[g_name[i]];
+	for (int k0 = 0; k0 <= all.c[0]; ++k0) for (int k1 = 0; k1 <= all.c[1]; ++k1) for (int k2 = 0; k2 <= all.c[2]; ++k2) {
+		MS A = { { k0, k1, k2 } }; std::set<std::string> out; std::vector<std::string> lists;
+		gen_lists(A, lists, out);
+		for (auto &st : out) g_table.push_back(st + fmt(" dead:a%d,b%d,-%d", all.c[0] - k0, all.c[1] - k1, all.c[2] - k2));
+	}
+	std::sort(g_table.begin(), g_table.end());
+}
+static const uint64_t SNAP = 100;   // init codes >= SNAP are table indices, below: hand-made start topologies of the history jobs
+
 struct Lk { int next, prev, parent, child; };
 struct Trav { std::vector<std::pair<int, int> > seen; struct HSys *sys; };
 
@@ -228,6 +273,19 @@ struct HSys {
 		else if (!l.empty()) cur.rl.push_back(l);
 	}
 	size_t lbase;
+	// build the state written as table text: slots are handed out in index order per name
+	int take_slot(char c) { for (int i = 0; i < g_N; ++i) if (!cur.alive[i] && NAMECH[g_name[i]] == c) { make(i); return i; } return -1; }
+	void build_seq(const char *&t, int parent, char close)
+	{
+		std::vector<int> l;
+		while (*t && *t != close) { int i = take_slot(*t++); if (*t == '(') { ++t; build_seq(t, i, ')'); ++t; } l.push_back(i); }
+		raw_children(parent, l);
+	}
+	void build_state(const std::string &txt)
+	{
+		const char *t = txt.c_str();
+		while (*t == '[') { ++t; build_seq(t, -1, ']'); ++t; }
+	}
 	HSys(Run &run, uint64_t init) : r(run), broken(false), t0(run.transitions)
 	{
 		guard_install();
@@ -237,6 +295,7 @@ struct HSys {
 		if (ledger_live() || (++nsys & 1023) == 0) ledger_reset();
 		lbase = ledger_live();
 		for (int i = 0; i < MAXN; ++i) { p[i] = 0; meta[i] = 0; }
+		if (init >= SNAP) { build_state(g_table[init - SNAP]); cur.norm(); if (sym_canon(cur) != g_table[init - SNAP]) { broken = true; r.incomplete("init state does not reproduce its table entry"); } return; }
 		for (int i = 0; i < g_N; ++i) make(i);
 		std::vector<int> all; for (int i = 0; i < g_N; ++i) all.push_back(i);
 		std::vector<bool> placed(g_N, false);
@@ -445,7 +504,8 @@ struct HSys {
 		// ---------------- expectation
 		Forest E = F; std::set<int> freepos; std::vector<int> deaths;
 		bool pre_linked = F.any_link();
-		pre_desc = forest_str(F); op_desc = op_str(d); sig_op = kname[d.k]; sig_cls = "";
+		if (live()) { pre_desc = forest_str(F); op_desc = op_str(d); }   // texts only for the step under test
+		sig_op = kname[d.k]; sig_cls = "";
 		mpt::node *pa = d.k == CREATE ? 0 : p[a], *pb = b >= 0 ? p[b] : 0;
 		r.hint(kname[d.k]);
 		asan_error();
@@ -813,26 +873,30 @@ void mc_jobs(Tier t, std::vector<std::string> &jobs)
 	std::vector<std::string> m3, m4, m5;
 	multisets(3, m3); multisets(4, m4); multisets(5, m5);
 	m3 = canon_ms(m3); m4 = canon_ms(m4); m5 = canon_ms(m5);
-	if (t == Quick) {
-		for (auto &s : m3) jobs.push_back("hist:" + s + ":0,1,2,3:6");
-		for (auto &s : m4) jobs.push_back("hist:" + s + ":0,1,2,3,4,5,6:4");
-		for (auto &s : m5) jobs.push_back("hist:" + s + ":0,1,2,3,4,5,6:2");
-	} else {
-		for (auto &s : m3) jobs.push_back("hist:" + s + ":0,1,2,3:8");
-		for (auto &s : m4) jobs.push_back("hist:" + s + ":0,1,2,3,4,5,6:7");
-		for (auto &s : m5) jobs.push_back("hist:" + s + ":0,1,2,3,4,5,6:4");
-	}
+	// hist: BFS over histories from hand-made start states (reaches every state of the 3- and 4-node pools);
+	// snap: every state of the pool is a start state, every op instance is run from each (depth 1), dealt out in slices
+	for (auto &s : m3) jobs.push_back("hist:" + s + ":0,1,2,3:" + (t == Quick ? "6" : "8"));
+	for (auto &s : m4) jobs.push_back("hist:" + s + ":0,1,2,3,4,5,6:" + (t == Quick ? "4" : "7"));
+	for (auto &s : m4) jobs.push_back("snap:" + s + ":0/1");
+	if (t == Quick) for (int k = 0; k < 16; ++k) jobs.push_back(fmt("snap:aab--:%d/16", k));
+	else for (auto &s : m5) for (int k = 0; k < 8; ++k) jobs.push_back(fmt("snap:%s:%d/8", s.c_str(), k));
 	for (int k = 0; k < 16; ++k) jobs.push_back(fmt("parse:%d/16", k));
 }
 static int setup(const std::string &job, std::vector<uint64_t> &inits)
 {
-	// hist:names:inits:depth
+	// hist:names:inits:depth   snap:names:slice/slices
 	size_t p1 = job.find(':'), p2 = job.find(':', p1 + 1), p3 = job.find(':', p2 + 1);
-	std::string names = job.substr(p1 + 1, p2 - p1 - 1), in = job.substr(p2 + 1, p3 - p2 - 1);
+	std::string names = job.substr(p1 + 1, p2 - p1 - 1), in = job.substr(p2 + 1, p3 == std::string::npos ? p3 : p3 - p2 - 1);
 	g_N = (int) names.size();
 	for (int i = 0; i < g_N; ++i) g_name[i] = names[i] == 'a' ? 0 : (names[i] == 'b' ? 1 : 2);
-	for (size_t p = 0; p < in.size(); p += 2) inits.push_back(in[p] - '0');
 	build_ops();
+	if (job.compare(0, 5, "snap:") == 0) {
+		build_table();
+		size_t k = atoi(in.c_str()), n = atoi(in.c_str() + in.find('/') + 1);
+		for (size_t i = k; i < g_table.size(); i += n) inits.push_back(SNAP + i);
+		return 1;
+	}
+	for (size_t p = 0; p < in.size(); p += 2) inits.push_back(in[p] - '0');
 	return atoi(job.c_str() + p3 + 1);
 }
 static const char *required[] = {
@@ -851,7 +915,7 @@ void mc_explore(Run &r, const std::string &job)
 	int depth = setup(job, inits);
 	struct timespec t0, t1; clock_gettime(CLOCK_MONOTONIC, &t0);
 	bfs_histories<HSys>(r, inits, depth);
-	clock_gettime(CLOCK_MONOTONIC, &t1); if (getenv("C14_TIME")) fprintf(stderr, "TIME %s %.1f s, %llu transitions\n", job.c_str(), (t1.tv_sec - t0.tv_sec) + 1e-9 * (t1.tv_nsec - t0.tv_nsec), (unsigned long long) r.transitions);
+	clock_gettime(CLOCK_MONOTONIC, &t1); if (getenv("C14_TIME")) fprintf(stderr, "TIME %s table=%zu inits=%zu %.1f s, %llu transitions\n", job.c_str(), g_table.size(), inits.size(), (t1.tv_sec - t0.tv_sec) + 1e-9 * (t1.tv_nsec - t0.tv_nsec), (unsigned long long) r.transitions);
 }
 void mc_replay(Run &r, const std::string &job, const Vec &v)
 {
